@@ -392,6 +392,7 @@ def var(name: str, sort=REAL) -> Sym:
     return Sym("v", (name,), sort)
 
 
+NONZERO: set = set()
 TRUE = Sym("c", (True,), BOOL)
 FALSE = Sym("c", (False,), BOOL)
 ZERO = const(0)
@@ -450,10 +451,15 @@ def scale(s: Sym, k: Fraction) -> Sym:
 
 
 def _split_coeff(s: Sym):
-    """s = k * atom when s is a single-term lin without constant"""
-    if s.op == "lin" and s.args[1] == 0 and len(s.args[0]) == 1:
-        a, k = s.args[0][0]
-        return k, a
+    """s = k * s' with s' normalised: a single atom, or a linear combination whose leading (lowest-id atom) coefficient is +1.
+    Pulling the scalar out of products makes u*(w + p c) and u*(-w - p c) share one product atom."""
+    if s.op == "lin":
+        if s.args[1] == 0 and len(s.args[0]) == 1:
+            a, k = s.args[0][0]
+            return k, a
+        k = s.args[0][0][1]  # items are sorted by atom id
+        if k != 1:
+            return k, scale(s, 1 / k)
     return Fraction(1), s
 
 
@@ -468,9 +474,22 @@ def _cmp(op, a, b):
         return TRUE if {"lt": x < y, "le": x <= y, "eq": x == y}[op] else FALSE
     if a is b:
         return FALSE if op == "lt" else TRUE
-    if op == "eq" and a.hid > b.hid:
-        a, b = b, a
-    r = Sym(op, (a, b), BOOL)
+    # canonical form: compare p with 0 where p = (b - a) scaled to leading coefficient +1
+    # (a < b  <=>  0 < b - a); halves the number of distinct atoms for mirrored conditions
+    d = b - a
+    if d.op == "c":
+        x = d.args[0]
+        return TRUE if {"lt": 0 < x, "le": 0 <= x, "eq": x == 0}[op] else FALSE
+    dd, c0 = d.lin()
+    lead_atom = min(dd, key=lambda t: t.hid)
+    lead = dd[lead_atom]
+    pn = scale(d, 1 / abs(lead))
+    if op == "eq":
+        r = Sym("eq", ((pn if lead > 0 else -pn), ZERO), BOOL)
+    elif lead > 0:
+        r = Sym(op, (ZERO, pn), BOOL)
+    else:
+        r = Sym(op, (-pn, ZERO), BOOL)
     if HOOKS.prune is not None:
         p = HOOKS.prune(r)
         if p is True:
@@ -544,6 +563,22 @@ def ite(c, a, b):
     if a.sort == BOOL and b.sort == BOOL:
         return Or(And(c, a), And(Not(c), b))
     a, b = _real(a), _real(b)
+    # polarity: p < 0 is the negation of 0 < p for terms the harness has assumed non-zero (NONZERO holds their ids and the
+    # assumption p != 0 is among the hypotheses of every query): ite(p<0, a, b) = ite(0<p, b, a)
+    if c.op == "lt" and c.args[1] is ZERO and c.args[0].hid in NONZERO:
+        c = Sym("lt", (ZERO, c.args[0]), BOOL)
+        a, b = b, a
+    # pull a common scalar out: ite(c, k*a', k*b') = k * ite(c, a', b') with a' having leading coefficient +1
+    # (so that ite(c, X, Y) and ite(c, -X, -Y) share one atom)
+    k = Fraction(1)
+    for t in (a, b):
+        if t.op == "lin":
+            k = t.args[0][0][1]
+            break
+        if t.op == "c" and t.args[0] != 0 and (a.op == "c" and b.op == "c"):
+            break
+    if k != 1:
+        return scale(Sym("ite", (c, scale(a, 1 / k), scale(b, 1 / k)), REAL), k)
     return Sym("ite", (c, a, b), REAL)
 
 
